@@ -683,13 +683,17 @@ func (c *connectionContext) applySort(ctx context.Context, nodes []interface{}, 
 
 // getConnection applies the ConnectionArgs to nodes and returns the result in a wrapped Connection
 // type.
-func (c *connectionContext) getConnection(ctx context.Context, out []reflect.Value, args PaginationArgs, userArgs interface{}) (Connection, error) {
+//
+// postProcessOptions is what this invocation of an externally managed resolver
+// returned. It is a parameter, not state of the connectionContext, because one
+// connectionContext serves every concurrent request on the field.
+func (c *connectionContext) getConnection(ctx context.Context, out []reflect.Value, args PaginationArgs, userArgs interface{}, postProcessOptions PostProcessOptions) (Connection, error) {
 	nodes := castSlice(out[0].Interface())
 	if len(nodes) == 0 {
 		return Connection{}, nil
 	}
 
-	if !c.IsExternallyManaged() || c.PostProcessOptions.ApplyTextFilter {
+	if !c.IsExternallyManaged() || postProcessOptions.ApplyTextFilter {
 		var err error
 		nodes, err = c.applyTextFilter(ctx, nodes, args, userArgs)
 		if err != nil {
@@ -718,7 +722,7 @@ func (c *connectionContext) getConnection(ctx context.Context, out []reflect.Val
 
 	// If the pagination is externally managed, thunder isn't going to handle setting page
 	// information or reducing the edges, unless it is explicitly instructed to.
-	if c.IsExternallyManaged() && !c.PostProcessOptions.SetPageInfo {
+	if c.IsExternallyManaged() && !postProcessOptions.SetPageInfo {
 		// XXX: We might want to handle the case where the externally managed result set is of
 		// incorrect size (too big) and error.
 		if err := connection.externallySetPageInfo(out[1].Interface().(PaginationInfo)); err != nil {
@@ -1253,6 +1257,7 @@ func (sb *schemaBuilder) buildPaginatedFunctionAndFuncCtx(typ reflect.Type, m *m
 func (c *connectionContext) extractReturnAndErr(ctx context.Context, out []reflect.Value, args interface{}, retType graphql.Type) (interface{}, error) {
 	var paginationArgs PaginationArgs
 	var userArgs interface{}
+	var postProcessOptions PostProcessOptions
 
 	// If the pagination args are not embedded then they need to be extracted out of ConnectionArgs
 	// struct and setup for the slicing functions.
@@ -1276,10 +1281,10 @@ func (c *connectionContext) extractReturnAndErr(ctx context.Context, out []refle
 		}
 	} else {
 		paginationArgs = reflect.ValueOf(args).Field(c.PaginationArgsIndex).Interface().(PaginationArgs)
-		c.PostProcessOptions = out[2].Interface().(PostProcessOptions)
+		postProcessOptions = out[2].Interface().(PostProcessOptions)
 	}
 
-	result, err := c.getConnection(ctx, out, paginationArgs, userArgs)
+	result, err := c.getConnection(ctx, out, paginationArgs, userArgs, postProcessOptions)
 	if err != nil {
 		return nil, err
 	}
